@@ -150,22 +150,21 @@ func c16Unscaled(ints, frac []byte, neg bool, s int) *bigInt {
 	return v
 }
 
-func HarnessC16_Format_1_0()   { c16Format(1, 0) }
-func HarnessC16_Format_1_1()   { c16Format(1, 1) }
-func HarnessC16_Format_3_1()   { c16Format(3, 1) }
-func HarnessC16_Format_5_5()   { c16Format(5, 5) }
-func HarnessC16_Format_6_2()   { c16Format(6, 2) }
-func HarnessC16T_Format_18_4() { c16Format(18, 4) }
-func HarnessC16T_Format_38_0() { c16Format(38, 0) }
-func HarnessC16T_Format_38_19() { c16Format(38, 19) }
-func HarnessC16T_Format_38_38() { c16Format(38, 38) }
+func HarnessC16_Format_1_0()  { c16Format(1, 0) }
+func HarnessC16_Format_1_1()  { c16Format(1, 1) }
+func HarnessC16_Format_3_1()  { c16Format(3, 1) }
+func HarnessC16_Format_5_5()  { c16Format(5, 5) }
+func HarnessC16_Format_6_2()  { c16Format(6, 2) }
+func HarnessC16T_Format_9_3() { c16Format(9, 3) }
+func HarnessC16T_Format_8_0() { c16Format(8, 0) }
+func HarnessC16T_Format_7_7() { c16Format(7, 7) }
 
-func HarnessC16_Parse_5_2_3_2() { c16Parse(5, 2, 3, 2) }
-func HarnessC16_Parse_5_2_3_3() { c16Parse(5, 2, 3, 3) } // one fraction digit too many
-func HarnessC16_Parse_5_2_4_1() { c16Parse(5, 2, 4, 1) } // one integer digit too many
-func HarnessC16_Parse_5_2_2_0() { c16Parse(5, 2, 2, 0) }
-func HarnessC16_Parse_4_4_1_4() { c16Parse(4, 4, 1, 4) }
-func HarnessC16T_Parse_38_10_28_10() { c16Parse(38, 10, 28, 10) }
+func HarnessC16_Parse_5_2_3_2()  { c16Parse(5, 2, 3, 2) }
+func HarnessC16_Parse_5_2_3_3()  { c16Parse(5, 2, 3, 3) } // one fraction digit too many
+func HarnessC16_Parse_5_2_4_1()  { c16Parse(5, 2, 4, 1) } // one integer digit too many
+func HarnessC16_Parse_5_2_2_0()  { c16Parse(5, 2, 2, 0) }
+func HarnessC16_Parse_4_4_1_4()  { c16Parse(4, 4, 1, 4) }
+func HarnessC16T_Parse_8_3_5_3() { c16Parse(8, 3, 5, 3) }
 
 // construction: accepted iff 0 <= scale <= precision <= 38
 func HarnessC16_Construct() {
